@@ -66,7 +66,7 @@ class Engine:
 
         def can_handle(a, k):
             self.calls.append((name, "can_handle"))
-            return can
+            return can(a[0]) if callable(can) else can
 
         def handle(a, k):
             self.calls.append((name, "handle"))
@@ -210,6 +210,23 @@ def engine_obligations(ctx, repo, r_fifo, r_throttle, r_first, r_iso):
     ctx.ob(r_first, f"{dr.qual}::first-accepting-handler-only", calls == want,
            f"{dr.qual} with handlers [A refuses, B accepts, C accepts] makes the calls {calls}, expected {want}: the datagram goes to the first registered handler that accepts it, once", dr.loc,
            sample={"rule": r_first, "calls": [str(c) for c in calls]})
+    # registration order is what decides, for every datagram: having matched once does not move a handler ahead of one
+    # registered before it
+    e = Engine(repo)
+    A = e.handler("A", can=lambda data: data.startswith(b"X"))
+    B = e.handler("B", can=True)
+    for h in (A, B):
+        e.call("add_receive_handler", h)
+    try:
+        e.call("dispatch_recevied_data", b"only B takes this", ("10.0.0.9", 10022))
+        e.calls.clear()
+        e.call("dispatch_recevied_data", b"X both would take this", ("10.0.0.9", 10022))
+        calls = [c for c in e.calls if c[1] == "handle"]
+    except PyRaise as ex:
+        calls = [("raises", ex.what)]
+    ctx.ob(r_first, f"{dr.qual}::registration-order-is-stable", calls == [("A", "handle")],
+           f"{dr.qual} with handlers [A takes X.., B takes anything]: after a datagram only B accepted, a datagram both accept is handled by {calls}, expected [('A', 'handle')] - "
+           f"the first REGISTERED handler that accepts, not the most recently used one", dr.loc)
     # nobody accepts
     e = Engine(repo)
     for h in (e.handler("A", can=False), e.handler("B", can=False)):
